@@ -731,3 +731,30 @@ def _leads_to_return_only(f, b):
             return False
         work.extend(f.succ[x])
     return True
+
+
+@rule("R-PIPELINE-WRAPPED", ["C03"])
+def r_pipeline_wrapped(cx):
+    """A definition that is a pipeline is always instantiated as one - also when it has a single step (`> step`,
+    `step omit_fwd |`): only a pipeline honours the one-way modifiers of its steps. On the pipeline side of Op::op's
+    `is_pipeline` test pipeline::new is reached and Op::op does not call itself."""
+    name = "op::Op::op"
+    f = cx.f.fn(name)
+    where = cx.where(f.d["span"])
+    pipe_test = [bb for bb, t in f.calls() if (t.get("callee") or "").endswith("Tokenize::is_pipeline")]
+    pipe_new = [bb for bb, t in f.calls() if (f.callee(t) or "").endswith("pipeline::new")]
+    if len(pipe_test) != 1 or len(pipe_new) != 1:
+        cx.ob("R-PIPELINE-WRAPPED", "anchors", False, "anchor-missing: is_pipeline / pipeline::new in Op::op", where)
+        return
+    psw = f.term(pipe_test[0]).get("target")
+    okp = False
+    if psw is not None and f.term(psw)["k"] == "switch":
+        yes = f.term(psw)["otherwise"]
+        reach = f.reach_from([yes])
+        rec = [b for b, t in f.calls() if (f.callee(t) or "") == "op::Op::op" and b in reach]
+        okp = pipe_new[0] in reach and not rec
+    cx.ob("R-PIPELINE-WRAPPED", "pipeline-always-wrapped", okp,
+          "a pipeline definition is handed to pipeline::new, whatever its number of steps" if okp else
+          "Op::op instantiates some pipeline definitions (e.g. those with a single step) as the bare step: `> helmert ..` "
+          "then runs in the direction it must be skipped, and its one-way flag leaks to the enclosing pipeline", where)
+    cx.count("R-PIPELINE-WRAPPED", "tests", 1)
